@@ -43,6 +43,7 @@
 //!            y=<cross-thread Cycle answers> tr=<transfer records> xt=<transfers to a query owned by
 //!            another thread> so=<claims of a transferred key by
 //!            its new owner> it=<max WillIterateCycle iteration> hd=<hold point reached 0|1>
+//!            hi=<WillIterateCycle events before the first hold point was reached|->
 //!            h=<hash of the H2 trace> t=<trace file|-> r=<results>
 //!   G <iter> <op> cur=<rev> px=<n> s=<F.K=V,..> u=<F.K,..>  probe record of this schedule
 //!   F <iter> kind=<deadlock|maxsteps|panic|hang> sched=<file|-> msg=<text>
@@ -242,6 +243,12 @@ fn interp(db: &dyn salsa::Database, fam: u8, k: Inp) -> u8 {
         if mode != 0 {
             let n = HOLD.count.fetch_add(1, Ordering::SeqCst) + 1;
             if n == HOLD.at.load(Ordering::SeqCst) {
+                {
+                    let mut o = obs();
+                    if o.hold_iter_events == usize::MAX {
+                        o.hold_iter_events = o.iter_events;
+                    }
+                }
                 HOLD.signal(1);
                 if mode == 1 {
                     // released by the DidSetCancellationFlag event of the main handle's write
@@ -534,9 +541,14 @@ struct Obs {
     execs: usize,
     blocks: usize,
     max_iter: u32,
+    /// WillIterateCycle events so far
+    iter_events: usize,
+    /// ... at the moment a hold point was reached (usize::MAX = no hold point reached)
+    hold_iter_events: usize,
 }
 
-static OBS: Mutex<Obs> = Mutex::new(Obs { execs: 0, blocks: 0, max_iter: 0 });
+static OBS: Mutex<Obs> =
+    Mutex::new(Obs { execs: 0, blocks: 0, max_iter: 0, iter_events: 0, hold_iter_events: usize::MAX });
 
 fn obs() -> std::sync::MutexGuard<'static, Obs> {
     OBS.lock().unwrap_or_else(|e| e.into_inner())
@@ -585,6 +597,7 @@ struct IterObs {
     execs: usize,
     blocks: usize,
     max_iter: u32,
+    hold_iter_events: usize,
     contended: usize,
     held: bool,
     segments: Vec<Vec<String>>,
@@ -822,6 +835,8 @@ fn run_history(case: &Case, seq: bool, mode_seed: u64) -> IterObs {
         o.execs = 0;
         o.blocks = 0;
         o.max_iter = 0;
+        o.iter_events = 0;
+        o.hold_iter_events = usize::MAX;
     }
     HOLD.reset(0, 0);
     let _ = salsa::verif_take_proto_trace();
@@ -833,6 +848,7 @@ fn run_history(case: &Case, seq: bool, mode_seed: u64) -> IterObs {
             salsa::EventKind::WillIterateCycle { iteration, .. } => {
                 let mut o = obs();
                 o.max_iter = o.max_iter.max(iteration as u32);
+                o.iter_events += 1;
             }
             salsa::EventKind::DidSetCancellationFlag => HOLD.signal(2),
             _ => {}
@@ -870,6 +886,7 @@ fn run_history(case: &Case, seq: bool, mode_seed: u64) -> IterObs {
         execs: 0,
         blocks: 0,
         max_iter: 0,
+        hold_iter_events: usize::MAX,
         contended: 0,
         held: false,
         segments: Vec::new(),
@@ -963,6 +980,7 @@ fn run_history(case: &Case, seq: bool, mode_seed: u64) -> IterObs {
         out.execs = o.execs;
         out.blocks = o.blocks;
         out.max_iter = o.max_iter;
+        out.hold_iter_events = o.hold_iter_events;
     }
     if !out.hang {
         *CASE.write().unwrap() = None;
@@ -1220,12 +1238,13 @@ fn report(case: &Case, args: &Args, pg: &Mutex<Progress>, o: IterObs) {
     let mut out = out.lock();
     writeln!(
         out,
-        "I {iter} b={} c={} x={} y={cross} tr={transfers} xt={xtransfers} so={selfonly} it={} hd={} h={h:016x} t={tfile} r={}",
+        "I {iter} b={} c={} x={} y={cross} tr={transfers} xt={xtransfers} so={selfonly} it={} hd={} hi={} h={h:016x} t={tfile} r={}",
         o.blocks,
         o.contended,
         o.execs,
         o.max_iter,
         o.held as u8,
+        if o.hold_iter_events == usize::MAX { "-".to_string() } else { o.hold_iter_events.to_string() },
         results_text(&o.results)
     )
     .unwrap();
